@@ -35,6 +35,13 @@ def run_check(prop, repo, tier="quick"):
 
 def main(args):
     cands = json.load(open(os.path.join(ROOT, "mutants", "candidates.json")))
+    expect = json.load(open(os.path.join(ROOT, "mutants", "expect.json")))
+    for c in cands:
+        e = expect.get(c["name"], {})
+        if "checks" in e:
+            c["checks"] = e["checks"]
+        if "equivalent" in e:
+            c["suite_341"] = "equivalent"
     want = [a for a in args if not a.startswith("--")]
     results = []
     todo = []
